@@ -19,6 +19,41 @@ extern "C" const char *__asan_default_options() { return "halt_on_error=0:detect
 
 using mc::Run;
 
+#ifdef VERIF_ASAN
+// Memory oracle for the mapped file: file-backed read-only mappings requested by the library are served from an anonymous region in
+// which the file content is right-aligned against a PROT_NONE guard page, so that a read of even one byte past the end of the
+// mapped file faults (fatal signal = C17 violation). Registered regions are released by the interposed munmap.
+#include <sys/syscall.h>
+namespace guardmap {
+struct Region { char *user; char *base; size_t total; };
+static Region regions[256]; static int nregions = 0;
+static void *raw_mmap(void *a, size_t l, int pr, int fl, int fd, off_t off) { return (void *) syscall(SYS_mmap, a, l, pr, fl, fd, off); }
+static int raw_munmap(void *a, size_t l) { return (int) syscall(SYS_munmap, a, l); }
+}
+extern "C" void *mmap(void *addr, size_t len, int prot, int flags, int fd, off_t off) {
+    using namespace guardmap;
+    if (fd >= 0 && prot == PROT_READ && (flags & MAP_SHARED) && addr == nullptr && off == 0 && len > 0 && nregions < 256) {
+        size_t page = 4096, body = (len + page - 1) / page * page, total = body + page;
+        char *base = (char *) raw_mmap(nullptr, total, PROT_READ | PROT_WRITE, MAP_PRIVATE | MAP_ANONYMOUS, -1, 0);
+        if (base == MAP_FAILED) return MAP_FAILED;
+        // keep the 8-byte alignment the library relies on: the slack before the guard page is len rounded up to 8
+        size_t len8 = (len + 7) / 8 * 8;
+        char *user = base + body - len8;
+        size_t done = 0; while (done < len) { ssize_t r = pread(fd, user + done, len - done, off_t(done)); if (r <= 0) break; done += size_t(r); }
+        mprotect(base, body, PROT_READ);
+        mprotect(base + body, page, PROT_NONE);
+        regions[nregions++] = {user, base, total};
+        return user;
+    }
+    return guardmap::raw_mmap(addr, len, prot, flags, fd, off);
+}
+extern "C" int munmap(void *addr, size_t len) {
+    using namespace guardmap;
+    for (int i = 0; i < nregions; ++i) if (regions[i].user == addr) { int r = raw_munmap(regions[i].base, regions[i].total); regions[i] = regions[--nregions]; return r; }
+    return raw_munmap(addr, len);
+}
+#endif
+
 struct Cn {
     int arrays, nontrivial, queries, histories, steps, objects, file_compares, long_runs, containers;
     explicit Cn(Run &r) {
@@ -325,6 +360,6 @@ int main(int argc, char **argv) {
         ? "every non-decreasing sequence of length 1.." + std::to_string(N) + " over four 10-value palettes (signed and unsigned key types, values at lowest()/max-1) and the run family (up to three runs with lengths from {0,1,2,3,4,5,7,8,9,15,16,17,2E+1,2E+2,2E+3,4E+5}, adjacent or 1000 apart, last run ending at n) and, for chunked construction, the seam-window family (n=2^15, 2 and 20 chunks, every 4th of the 4096 window words at every seam and at the tail) and the long-run family (a duplicate run from around a chunk start to around a chunk end) is stored in a real MappedPGMIndex (file in a scratch directory); for every query of the alphabet lower_bound, upper_bound, count, contains are compared with the std algorithms, begin()/end()/size() with the vector. State = one stored array; transition = one query key; non-trivial = at least two distinct keys."
         : "for every non-decreasing sequence of length 1.." + std::to_string(N) + " over the palettes (first key negative, zero, positive): every history of exactly " + std::to_string(hist_len) + " steps over {R: create f1 from the range, W: create f2 from a raw key file, O1/O2: reopen f1/f2, X<i>: destroy the i-th live object} respecting file existence; after every step every live object answers the full C11 battery, f1 and f2 are byte-identical, a reopened object's index members equal its creator's, and no file changed. State = one history step; non-trivial arrays have at least two distinct keys.";
     ev.bounds = "N<=" + std::to_string(N) + (prop == 12 ? ", history length " + std::to_string(hist_len) : "") + "; configurations mapped<i16,1,0> mapped<u32,1,1> mapped<i64,2,1> mapped<u64,1,4>" + (thorough ? " mapped<u32,4,4> mapped<i64,128,4> mapped<u64,1,2> mapped<i32,3,0>" : "");
-    ev.assumptions = {"files live in a per-worker scratch directory on /dev/shm (or TMPDIR)", "the harness closes the descriptors that MappedPGMIndex::map_file leaks (the mappings stay valid)"};
+    ev.assumptions = {"files live in a per-worker scratch directory on /dev/shm (or TMPDIR)", "ASan build only: file mappings are served right-aligned against a PROT_NONE guard page (8-byte slack at most), so over-reads past the mapped file fault", "the harness closes the descriptors that MappedPGMIndex::map_file leaks (the mappings stay valid)"};
     return run.finish(ev);
 }
